@@ -150,6 +150,42 @@ theorem collect_result (p : Proj) (hnd : (names p).Nodup) (inverse : Bool) (maxc
   have ⟨hg, _⟩ := collect_walk_graph p hnd inverse maxc after h
   exact ⟨returns_after_all_visits hg hr ht, (outcome_on_return hg hr ht).2, (result_first_error hg hr).1⟩
 
+/-- **acceptance, without reference to any iteration order**: a project is accepted (`newGraph` and `checkCycle` return
+nil, `walk` is reached) iff every *required* dependency names an enabled service and the dependency graph has no closed
+walk.  Both sides of the right-hand statement are about membership only, so every iteration order of `project.Services`
+and of each `depends_on` map gives the same answer. -/
+theorem project_accepted_iff (p : Proj) :
+    (run p).cls = "ok" ↔
+      (∀ s ∈ p.services, ∀ d ∈ s.deps, d.required = true → d.name ∈ names p) ∧
+      (∀ v ∈ names p, ∀ n, ¬ Reaches (depAdj p) n v v) := by
+  have hbi := build_none_iff (names p) p.disabled p.services []
+  by_cases hb : (build (names p) p.disabled p.services []).1 = none
+  · have hacc := (accepted_iff_acyclic p hb).1
+    constructor
+    · intro h
+      refine ⟨?_, hacc.mp h⟩
+      intro s hs d hd hreq
+      rcases hbi.mp hb s hs d hd with h1 | h1
+      · simpa using h1
+      · rw [hreq] at h1; cases h1
+    · intro h; exact hacc.mpr h.2
+  · constructor
+    · intro h; exact absurd h ((run_cls_of_build p).1 hb)
+    · intro h
+      exfalso
+      apply hb
+      apply hbi.mpr
+      intro s hs d hd
+      by_cases hreq : d.required = true
+      · left; simpa using h.1 s hs d hd hreq
+      · right; simpa using hreq
+
+/-- **the dependency graph, without reference to any iteration order**: `c` is a dependency of `v` in the graph handed
+to `walk` iff some service named `v` lists `c` in its `depends_on` and `c` is an enabled service (required or not). -/
+theorem dependency_graph_order_free (p : Proj) (hnd : (names p).Nodup) (v c : Name) :
+    c ∈ depAdj p v ↔ ∃ s ∈ p.services, s.name = v ∧ (∃ d ∈ s.deps, d.name = c) ∧ c ∈ names p :=
+  mem_depAdj_iff p hnd v c
+
 /-! ### non-vacuity -/
 
 /-- web(2) → api(1) → db(0), plus an optional dependency of db on a service that is not enabled -/
